@@ -299,6 +299,194 @@ Section Sticky.
     destruct o as [[]| | | |]; try congruence; qclose.
   Qed.
 
+  (** * Two-operand classes whose first operand is a scalar or a pattern (PIndexOf PDictKey PArrayIndex) *)
+  Definition simple (a : arg) : Prop := match a with AV _ | AP _ => True | _ => False end.
+
+  Lemma simple_value f a : simple a -> simple (snd (value f a)).
+  Proof. destruct a; try contradiction; intros _; destruct f; try exact I. rewrite value_pattern. destruct (step f p); exact I. Qed.
+
+  Section BinarySimple.
+    Variable mk : arg -> arg -> pat.
+    Variable g : val -> val -> outcome val.
+    Hypothesis mk_step : forall f a b, simple a ->
+      step (S f) (mk a b) =
+        (let '(oa, a') := value f a in
+         match oa with
+         | Yield va =>
+             let '(ob, b') := value f b in
+             match ob with
+             | Yield vb => (g va vb, mk a' b')
+             | _ => (ob, mk a' b')
+             end
+         | _ => (oa, mk a' b)
+         end).
+    Hypothesis g_no_stop : forall x y, g x y <> Stop.
+
+    Lemma bs_quiet f a b : simple a -> aquiet f a \/ aquiet f b -> quiet (S f) (mk a b).
+    Proof.
+      intros Sa N. apply (quiet_coind (S f) (fun p => exists a b, p = mk a b /\ simple a /\ (aquiet f a \/ aquiet f b))); [|eauto 6].
+      clear a b Sa N. intros p [a [b [-> [Sa N]]]]. rewrite (mk_step f a b Sa). pose proof (simple_value f a Sa) as Sa'.
+      destruct N as [N|N].
+      - poll_v N f a. cbn [snd] in Sa'. destruct o; try discriminate Y; qclose.
+      - destruct (value f a) as [oa a']. cbn [snd] in Sa'. destruct oa; try qclose.
+        poll_v N f b. destruct o; try discriminate Y; qclose.
+    Qed.
+
+    Lemma bs_stop f a b p' : simple a ->
+      step (S f) (mk a b) = (Stop, p') ->
+      (exists a', value f a = (Stop, a') /\ p' = mk a' b) \/
+      (exists va a' b', value f a = (Yield va, a') /\ value f b = (Stop, b') /\ p' = mk a' b').
+    Proof.
+      intro Sa. rewrite (mk_step f a b Sa). destruct (value f a) as [oa a']. destruct oa; intro H; try discriminate.
+      - destruct (value f b) as [ob b']. destruct ob; try discriminate.
+        + inversion H. exfalso. eapply g_no_stop; eauto.
+        + inversion H. right. eauto 6.
+      - inversion H. left. eauto.
+    Qed.
+  End BinarySimple.
+
+  Definition indexof_g (vl vi : val) : outcome val :=
+    if is_none vl || is_none vi then Yield VNone
+    else match vl with
+         | VList l | VTup l => match index_of vi l 0 with Some i => Yield (VInt i) | None => Yield VNone end
+         | VStr _ | VDict _ => Inexact
+         | _ => Raise TypeError
+         end.
+  Lemma indexof_g_no_stop x y : indexof_g x y <> Stop.
+  Proof. unfold indexof_g. destruct (is_none x || is_none y); [discriminate|]. destruct x; try discriminate; destruct (index_of y l 0); discriminate. Qed.
+  Lemma step_indexof_eq f a b : simple a ->
+    step (S f) (PIndexOf a b) =
+      (let '(oa, a') := value f a in
+       match oa with
+       | Yield va => let '(ob, b') := value f b in
+                     match ob with Yield vb => (indexof_g va vb, PIndexOf a' b') | _ => (ob, PIndexOf a' b') end
+       | _ => (oa, PIndexOf a' b)
+       end).
+  Proof. destruct a; try contradiction; reflexivity. Qed.
+  Lemma step_indexof_list_eq f l vs b : plain_items l = Some vs ->
+    step (S f) (PIndexOf (AL l) b) =
+      (let '(o, b') := value f b in
+       match o with Yield v => (indexof_g (VList vs) v, PIndexOf (AL l) b') | _ => (o, PIndexOf (AL l) b') end).
+  Proof.
+    intro Hp. change (step (S f) (PIndexOf (AL l) b)) with
+      (let '(ol, list') := (match plain_items l with Some vs => Yield (VList vs) | None => Inexact end, AL l) in
+       match ol with
+       | Yield vl => let '(oi, item') := value f b in
+                     match oi with Yield vi => (indexof_g vl vi, PIndexOf list' item') | _ => (oi, PIndexOf list' item') end
+       | _ => (ol, PIndexOf list' b)
+       end).
+    rewrite Hp. reflexivity.
+  Qed.
+  Lemma step_indexof_list_none f l b : plain_items l = None -> step (S f) (PIndexOf (AL l) b) = (Inexact, PIndexOf (AL l) b).
+  Proof.
+    intro Hp. change (step (S f) (PIndexOf (AL l) b)) with
+      (let '(ol, list') := (match plain_items l with Some vs => Yield (VList vs) | None => Inexact end, AL l) in
+       match ol with
+       | Yield vl => let '(oi, item') := value f b in
+                     match oi with Yield vi => (indexof_g vl vi, PIndexOf list' item') | _ => (oi, PIndexOf list' item') end
+       | _ => (ol, PIndexOf list' b)
+       end).
+    rewrite Hp. reflexivity.
+  Qed.
+
+  Definition dictkey_g (vd vk : val) : outcome val :=
+    match vd, vk with
+    | VDict d, VStr k => match assoc k d with Some v => Yield v | None => Raise KeyError end
+    | VDict d, (VList _ | VDict _) => Raise TypeError
+    | VDict d, _ => Raise KeyError
+    | VNone, _ => Raise TypeError
+    | _, _ => Inexact
+    end.
+  Lemma dictkey_g_no_stop x y : dictkey_g x y <> Stop.
+  Proof. destruct x; try discriminate. destruct y; try discriminate. cbn. match goal with |- context [assoc ?k ?d] => destruct (assoc k d) end; discriminate. Qed.
+  Lemma step_dictkey_eq f a b : simple a ->
+    step (S f) (PDictKey a b) =
+      (let '(oa, a') := value f a in
+       match oa with
+       | Yield va => let '(ob, b') := value f b in
+                     match ob with Yield vb => (dictkey_g va vb, PDictKey a' b') | _ => (ob, PDictKey a' b') end
+       | _ => (oa, PDictKey a' b)
+       end).
+  Proof. destruct a; try contradiction; reflexivity. Qed.
+  Lemma step_dictkey_dict_eq f kv b :
+    step (S f) (PDictKey (AD kv) b) =
+      match plain_kw kv with
+      | Some d => (let '(o, b') := value f b in
+                   match o with Yield v => (dictkey_g (VDict d) v, PDictKey (AD kv) b') | _ => (o, PDictKey (AD kv) b') end)
+      | None => (Inexact, PDictKey (AD kv) b)
+      end.
+  Proof.
+    change (step (S f) (PDictKey (AD kv) b)) with
+      (let '(od, dict') := (match plain_kw kv with Some d => Yield (VDict d) | None => Inexact end, AD kv) in
+       match od with
+       | Yield vd => let '(ok, key') := value f b in
+                     match ok with Yield vk => (dictkey_g vd vk, PDictKey dict' key') | _ => (ok, PDictKey dict' key') end
+       | _ => (od, PDictKey dict' b)
+       end).
+    destruct (plain_kw kv); reflexivity.
+  Qed.
+
+  Definition arrayindex_g (vl vi : val) : outcome val :=
+    match vi with
+    | VNone => Yield VNone
+    | _ => match py_int vi with
+           | Yield (VInt i) =>
+               match vl with
+               | VList l | VTup l => match py_index l i with None => Raise IndexError | Some v => Yield v end
+               | VStr _ | VDict _ => Inexact
+               | _ => Raise TypeError
+               end
+           | Yield _ => Inexact
+           | o => o
+           end
+    end.
+  Lemma arrayindex_g_no_stop x y : arrayindex_g x y <> Stop.
+  Proof.
+    unfold arrayindex_g. destruct y; try discriminate; cbn;
+      (destruct x; try discriminate; match goal with |- context [py_index ?l ?i] => destruct (py_index l i) end; discriminate).
+  Qed.
+  Lemma step_arrayindex_eq f a b : simple a ->
+    step (S f) (PArrayIndex a b) =
+      (let '(oa, a') := value f a in
+       match oa with
+       | Yield va => let '(ob, b') := value f b in
+                     match ob with Yield vb => (arrayindex_g va vb, PArrayIndex a' b') | _ => (ob, PArrayIndex a' b') end
+       | _ => (oa, PArrayIndex a' b)
+       end).
+  Proof.
+    intro Sa.
+    assert (E : step (S f) (PArrayIndex a b) =
+      (let '(ol, list') := value f a in
+              match ol with
+              | Yield vl =>
+                  let '(oi, index') := value f b in
+                  match oi with
+                  | Yield VNone => (Yield VNone, PArrayIndex list' index')
+                  | Yield vi =>
+                      match py_int vi with
+                      | Yield (VInt i) =>
+                          match vl with
+                          | VList l | VTup l =>
+                              match py_index l i with
+                              | None => (Raise IndexError, PArrayIndex list' index')
+                              | Some v => (Yield v, PArrayIndex list' index')
+                              end
+                          | VStr _ | VDict _ => (Inexact, PArrayIndex list' index')
+                          | _ => (Raise TypeError, PArrayIndex list' index')
+                          end
+                      | Yield _ => (Inexact, PArrayIndex list' index')
+                      | o => (o, PArrayIndex list' index')
+                      end
+                  | _ => (oi, PArrayIndex list' index')
+                  end
+              | _ => (ol, PArrayIndex list' b)
+              end)) by (destruct a; try contradiction; reflexivity).
+    rewrite E. clear E. destruct (value f a) as [oa a']. destruct oa; try reflexivity.
+    destruct (value f b) as [ob b']. destruct ob as [vb| | | |]; try reflexivity.
+    unfold arrayindex_g. destruct vb; try reflexivity; cbn;
+      (destruct a0; try reflexivity; match goal with |- context [py_index ?l ?i] => destruct (py_index l i) end; reflexivity).
+  Qed.
+
   (** * The counter-terminated classes at ANY fuel *)
   Ltac hsplit H :=
     repeat (first [ discriminate H
@@ -370,9 +558,18 @@ Section Sticky.
   (* classes that end by their own counters whatever their input does *)
   | FP_loop p count pos li ra values : fpat (PLoop p count pos li ra values)
   | FP_subsequence p off len pos values : farg p -> fpat (PSubsequence p (AV off) (AV len) pos values)
+  (* two-operand classes *)
+  | FP_indexof a b : farg a -> farg b -> fpat (PIndexOf a b)
+  | FP_indexof_list l b : farg b -> fpat (PIndexOf (AL l) b)
+  | FP_dictkey a b : farg a -> farg b -> fpat (PDictKey a b)
+  | FP_dictkey_dict kv b : farg b -> fpat (PDictKey (AD kv) b)
+  | FP_arrayindex a b : farg a -> farg b -> fpat (PArrayIndex a b)
   with farg : arg -> Prop :=
   | FA_val v : farg (AV v)
   | FA_pat p : fpat p -> farg (AP p).
+
+  Lemma farg_simple a : farg a -> simple a.
+  Proof. destruct 1; exact I. Qed.
 
   (** the fragment of Pat/IterProofs.v is part of it *)
   Lemma sticky_fpat : forall p, sticky_pat p -> fpat p
@@ -465,6 +662,12 @@ Section Sticky.
         * destruct f as [|f']; [apply FP_subsequence; assumption|]. rewrite step_subsequence_eq, !value_scalar.
           pose proof (fun values target => pull_until_inv farg (anext (S f')) IHn (S f') p0 values target H) as PU.
           fclosed_case IHs IHv IHn.
+        * rewrite step_indexof_eq by (apply farg_simple; assumption). fclosed_case IHs IHv IHn.
+        * destruct (plain_items l) eqn:Pl; [rewrite (step_indexof_list_eq _ _ _ _ Pl)|rewrite step_indexof_list_none by exact Pl];
+            fclosed_case IHs IHv IHn.
+        * rewrite step_dictkey_eq by (apply farg_simple; assumption). fclosed_case IHs IHv IHn.
+        * rewrite step_dictkey_dict_eq. fclosed_case IHs IHv IHn.
+        * rewrite step_arrayindex_eq by (apply farg_simple; assumption). fclosed_case IHs IHv IHn.
       + intros a [v|p Hp]; [exact (FA_val v)|]. rewrite value_pattern. pose proof (IHs p Hp) as K.
         destruct (step f p). apply FA_pat. exact K.
       + intros a [v|p Hp]; [exact (FA_val v)|]. rewrite anext_pattern. pose proof (IHs p Hp) as K.
@@ -578,6 +781,47 @@ Section Sticky.
                destruct (pull_until_stop farg (anext (S f')) (farg_anext_closed (S f')) _ _ _ _ _ _ H0 C1) as [T [a0 [Fa0 Ea0]]] end.
              intros [|[|f2]]; [apply quiet_0|apply stable_quiet with (o := OutOfFuel); reflexivity|].
              eapply subsequence_input_quiet; eauto.
+        * (* PIndexOf *)
+          pose proof (farg_simple _ H0) as Sa. pose proof (simple_value f a Sa) as Sa'.
+          destruct (bs_stop PIndexOf indexof_g step_indexof_eq indexof_g_no_stop f a b p' Sa H) as [[a' [E ->]]|[va [a' [b' [Ea [Eb ->]]]]]];
+            (intros [|f2]; [apply quiet_0|]); apply (bs_quiet PIndexOf indexof_g step_indexof_eq).
+          -- rewrite E in Sa'. exact Sa'.
+          -- left. eapply AQ; [|eassumption]; assumption.
+          -- rewrite Ea in Sa'. exact Sa'.
+          -- right. eapply AQ; [|eassumption]; assumption.
+        * (* PIndexOf over a literal list *)
+          destruct (plain_items l) as [vs|] eqn:Pl; [|rewrite step_indexof_list_none in H by exact Pl; discriminate].
+          destruct (unary_stop binop LMAX (fun b => PIndexOf (AL l) b) (indexof_g (VList vs)) (fun f a => step_indexof_list_eq f l vs a Pl)
+                      (indexof_g_no_stop (VList vs)) _ _ _ H) as [a' [E ->]].
+          intros [|f2]; [apply quiet_0|].
+          apply (unary_quiet binop LMAX (fun b => PIndexOf (AL l) b) (indexof_g (VList vs)) (fun f a => step_indexof_list_eq f l vs a Pl)).
+          eapply AQ; [|eassumption]; assumption.
+        * (* PDictKey *)
+          pose proof (farg_simple _ H0) as Sa. pose proof (simple_value f a Sa) as Sa'.
+          destruct (bs_stop PDictKey dictkey_g step_dictkey_eq dictkey_g_no_stop f a b p' Sa H) as [[a' [E ->]]|[va [a' [b' [Ea [Eb ->]]]]]];
+            (intros [|f2]; [apply quiet_0|]); apply (bs_quiet PDictKey dictkey_g step_dictkey_eq).
+          -- rewrite E in Sa'. exact Sa'.
+          -- left. eapply AQ; [|eassumption]; assumption.
+          -- rewrite Ea in Sa'. exact Sa'.
+          -- right. eapply AQ; [|eassumption]; assumption.
+        * (* PDictKey over a literal dict *)
+          destruct (plain_kw kv) as [d|] eqn:Pk; [|rewrite step_dictkey_dict_eq, Pk in H; discriminate].
+          assert (MS : forall f a, step (S f) (PDictKey (AD kv) a) =
+                    (let '(o, a') := value f a in
+                     match o with Yield v => (dictkey_g (VDict d) v, PDictKey (AD kv) a') | _ => (o, PDictKey (AD kv) a') end))
+            by (intros; rewrite step_dictkey_dict_eq, Pk; reflexivity).
+          destruct (unary_stop binop LMAX (fun b => PDictKey (AD kv) b) (dictkey_g (VDict d)) MS (dictkey_g_no_stop (VDict d)) _ _ _ H) as [a' [E ->]].
+          intros [|f2]; [apply quiet_0|].
+          apply (unary_quiet binop LMAX (fun b => PDictKey (AD kv) b) (dictkey_g (VDict d)) MS).
+          eapply AQ; [|eassumption]; assumption.
+        * (* PArrayIndex *)
+          pose proof (farg_simple _ H0) as Sa. pose proof (simple_value f a Sa) as Sa'.
+          destruct (bs_stop PArrayIndex arrayindex_g step_arrayindex_eq arrayindex_g_no_stop f a b p' Sa H) as [[a' [E ->]]|[va [a' [b' [Ea [Eb ->]]]]]];
+            (intros [|f2]; [apply quiet_0|]); apply (bs_quiet PArrayIndex arrayindex_g step_arrayindex_eq).
+          -- rewrite E in Sa'. exact Sa'.
+          -- left. eapply AQ; [|eassumption]; assumption.
+          -- rewrite Ea in Sa'. exact Sa'.
+          -- right. eapply AQ; [|eassumption]; assumption.
       + intros a a' Hs H. destruct Hs as [v|p Hp]; [discriminate|].
         rewrite value_pattern in H. destruct (step f p) as [o p1] eqn:E. inversion H; subst.
         intros [|f2]; [apply aquiet_0|]. apply aquiet_pattern. eapply Q; eauto.
